@@ -107,3 +107,22 @@ obl('C17.C-CHLD-ONLY', FC, 'si_signo != SIGCHLD => result <= 5')
 obl('C17.C-UNKNOWN', FC, 'result 0 only for codes outside the table')
 obl('C17.C-PID', 'extract.c: sighook_signal_pid', 'returns info->si_pid')
 obl('C17.C-UID', 'extract.c: sighook_signal_uid', 'returns info->si_uid')
+
+# --------------------------------------------------------------------------------------------
+UNITS['pipe'] = dict(
+    name='pipe', engine='kani', crate='.', inject=[('src/low_level/pipe.rs', K + 'pipe.rs')], flags=FFI,
+    rewrite=[('src/low_level/pipe.rs', r'\blibc::fcntl\(', 'verif_kani::fcntl3(', 2)],
+    scan=[K + 'libc_model.rs', K + 'libc_shim.c'],
+    harnesses={'c13_wake': dict(props=['C13']), 'c13_register': dict(props=['C13'])})
+obl('C13.ONE-ATTEMPT', 'pipe::wake, action closure of pipe::register_raw', 'exactly one libc call per wake/delivery for every return value and errno; no loop')
+obl('C13.ONE-BYTE', 'pipe::wake', 'length 1, to the registered fd')
+obl('C13.DONTWAIT', 'pipe::wake', 'Send => send(.., MSG_DONTWAIT); Write => write')
+obl('C13.DELIVERY-NONBLOCKING', 'pipe::register_raw + WakeFd::set_flags', 'method fits the descriptor kind: send+MSG_DONTWAIT only on sockets, write only after fcntl(F_SETFL, ..|O_NONBLOCK) succeeded, before register is reached')
+obl('C13.REJECT-INVALID', 'pipe::register_raw', 'invalid fd (send/fcntl fail with EBADF) => Err, register never reached')
+obl('C13.CLOSE-ON-ERR', 'pipe::register_raw', 'fcntl failure => Err, no write, fd closed once')
+obl('C13.CLOSE-ONCE', 'WakeFd::drop', 'exactly one close(fd), as the last event, when the action is dropped')
+obl('C13.REGISTER-ONCE', 'pipe::register_raw', 'exactly one registry registration')
+PROPS['C13'] = dict(
+    level='proof', units=['pipe'],
+    trusted=L('A3', 'A4', 'A5', 'A10', 'A12') + ['"reader sees <= deliveries bytes and >= 1 since last drain" follows from ONE-ATTEMPT + kernel pipe/socket semantics (not machine-checked)'],
+    explanation='Kani proves the trace contract of wake() and of the closure built by the real register_raw/register against a libc model with a ghost descriptor (valid?, socket?, O_NONBLOCK set?), for all fds, signals, return values and errnos.')
